@@ -48,7 +48,11 @@ func Gen(t *rapid.T) Case {
 		maxExt = 9
 	}
 	c.Dims = vm.DrawDims(t, 4, maxExt, "root")
-	for vm.Product(c.Dims) > 600 {
+	if rapid.IntRange(0, 4).Draw(t, "longAxis") == 0 {
+		// one long axis: runs of 8 and more values (a block-copy fast path needs some length to be taken)
+		c.Dims[rapid.IntRange(0, len(c.Dims)-1).Draw(t, "longWhich")] = rapid.IntRange(8, 70).Draw(t, "longExt")
+	}
+	for vm.Product(c.Dims) > 600 && len(c.Dims) > 1 {
 		c.Dims = c.Dims[1:]
 	}
 	// the model runs alongside generation so that every drawn operation is in bounds
